@@ -12,3 +12,7 @@ pub use gob::decode_gob;
 pub use macroblock::decode_macroblock;
 pub use picture::decode_picture;
 pub use reader::H263Reader;
+
+/// Verification hooks (feature `verif`): the VLC table types `H263Reader::read_vlc` takes.
+#[cfg(feature = "verif")]
+pub use vlc::{Entry, Table};
